@@ -242,8 +242,8 @@ protected:
      */
    MUSCLE_NODISCARD ZLibCodec * GetReceiveCodec(int32 encoding) const
    {
-      // For receiving data, any ZLibCodec will do, so we'll just force it to the default codec-level
-      return GetCodec(muscleInRange((int32)encoding, (int32)MUSCLE_MESSAGE_ENCODING_ZLIB_1, (int32)MUSCLE_MESSAGE_ENCODING_ZLIB_9) ? MUSCLE_MESSAGE_ENCODING_ZLIB_6 : encoding, _recvCodec);
+      // When the sender changes its compression level it starts a new deflate stream, so we need to start a new inflater at that point also (same as MessageIOGateway's own receive path does)
+      return GetCodec(encoding, _recvCodec);
    }
 #endif
 
